@@ -308,7 +308,7 @@ struct Engine : public vf::Engine {
                 else if (x < 82) { static const int ks[] = { H_ENABLE, H_DISABLE, H_START, H_STOP, H_MARK, H_STAGE_INC, H_STAGE_DEC }; o.kind = ks[w.below(7)]; }
                 else if (x < 85) o.kind = H_STAGE_FREE;
                 else if (x < 88) { o.kind = H_CLEAR; o.a = (int64_t)w.below(4); }
-                else if (x < 97) { o.kind = H_QUERY; o.a = (int64_t)w.below(4); }
+                else if (x < 97) { o.kind = H_QUERY; o.a = (int64_t)w.below(4); o.b = (int64_t)w.chance(1, 3); }
                 else if (!faultFree) { if (w.chance(1, 2)) { o.kind = H_BADFREE; o.a = w.range(1, 4); o.b = (int64_t)w.below(3); o.c = (int64_t)w.below((uint64_t)nSlots); } else { o.kind = H_FAULT; o.a = 0; o.b = (int64_t)w.below(3); } }
                 else o.kind = H_QUERY;
             } else if (snd) {
@@ -369,6 +369,7 @@ struct Engine : public vf::Engine {
         Vec<Desig> desig; int failIndex; bool failableFor[3];
         int oomCountdown; bool oomAll;             // C level
         Vec<char*> untrackedHeap;
+        Str lastReportText; bool lastReportValid;  // what the buffer held after the last report (valid until something else is appended or it is cleared)
         bool diaCleanReport;                       // buffer cleared and nothing added since
         size_t diaMisuse;
     };
@@ -417,7 +418,7 @@ struct Engine : public vf::Engine {
         static const char* const short_[3] = { "non-allocated", "type mismatch", "corruption" };
         if (category < 0) { if (!CTX.reports.empty()) fail(W, "C06", "unexpected_report", sg2("op", opName, "got", CTX.reports[0].first.c_str()), sfmt("op %zu (%s): reported %s although nothing was misused", opIdx, opName, Json::S(CTX.reports[0].first).dump().c_str())); }
         else if (CTX.reports.size() != 1 || (CTX.reports[0].first != cats[category] && !(W.d->profile == "diagnostics" && CTX.reports[0].first == "?"))) fail(W, "C06", "report_category", sg2("want", short_[category], "got", CTX.reports.empty() ? "nothing" : CTX.reports[0].first.c_str()), sfmt("op %zu (%s): expected one '%s' report, got %zu (%s)", opIdx, opName, short_[category], CTX.reports.size(), CTX.reports.empty() ? "" : Json::S(CTX.reports[0].first).dump().c_str()));
-        if (!CTX.reports.empty()) { W.diaMisuse += CTX.reports.size(); W.diaCleanReport = false; }
+        if (!CTX.reports.empty()) { W.diaMisuse += CTX.reports.size(); W.diaCleanReport = false; W.lastReportValid = false; }
         CTX.reports.clear();
     }
 
@@ -461,6 +462,7 @@ struct Engine : public vf::Engine {
 
     void clearBuffer(World& W) {      // startChecking() is the only way to clear the message buffer; the period is restored at once
         if (W.d->profile == "diagnostics") return;
+        W.lastReportText.clear(); W.lastReportValid = true;
         W.det->startChecking();
         if (W.period == mem_leak_period_disabled) W.det->disable(); else if (W.period == mem_leak_period_enabled) W.det->enable();
     }
@@ -500,7 +502,7 @@ struct Engine : public vf::Engine {
         World W; W.det = &det; W.rep = &rep; W.d = &d; W.r = &r;
         for (int i = 0; i < N_SLOTS; i++) { W.slots[i].live = false; W.slots[i].p = 0; W.slots[i].tracked = false; }
         W.period = mem_leak_period_disabled; W.stage = 0; W.seq = 1; W.typecheck = true; W.failable = 0; W.failIndex = 0; W.oomCountdown = -1; W.oomAll = false;
-        W.failableFor[0] = W.failableFor[1] = W.failableFor[2] = false; W.diaCleanReport = true; W.diaMisuse = 0;
+        W.failableFor[0] = W.failableFor[1] = W.failableFor[2] = false; W.diaCleanReport = true; W.diaMisuse = 0; W.lastReportValid = true;
         W.famAllocator[0] = defaultNewAllocator(); W.famAllocator[1] = defaultNewArrayAllocator(); W.famAllocator[2] = defaultMallocAllocator();
         GlobalMemoryAllocatorStash stash; stash.save();
         CTX.bufBase = const_cast<char*>(det.report(mem_leak_period_checking));   // learn the buffer's address, then clear it
@@ -645,7 +647,7 @@ struct Engine : public vf::Engine {
             }
             case H_ENABLE: det.enable(); W.period = mem_leak_period_enabled; break;
             case H_DISABLE: det.disable(); W.period = mem_leak_period_disabled; break;
-            case H_START: det.startChecking(); W.period = mem_leak_period_checking; W.diaCleanReport = true; W.diaMisuse = 0; break;
+            case H_START: det.startChecking(); W.period = mem_leak_period_checking; W.diaCleanReport = true; W.diaMisuse = 0; W.lastReportText.clear(); W.lastReportValid = true; break;
             case H_STOP: det.stopChecking(); W.period = mem_leak_period_enabled; break;
             case H_MARK: det.markCheckingPeriodLeaksAsNonCheckingPeriod(); for (int i = 0; i < N_SLOTS; i++) if (W.slots[i].live && W.slots[i].period == mem_leak_period_checking) W.slots[i].period = mem_leak_period_enabled; break;
             case H_STAGE_INC: if (W.stage < 250) { det.increaseAllocationStage(); W.stage++; } break;
@@ -670,11 +672,19 @@ struct Engine : public vf::Engine {
             }
             case H_QUERY: {
                 int q = (int)(o.a % 4);
-                int saved = W.period;
-                det.startChecking();                       // the only way to clear the buffer; period restored right after, nothing is allocated in between
-                if (saved == mem_leak_period_disabled) det.disable(); else if (saved == mem_leak_period_enabled) det.enable();
+                if (o.b == 1 && W.lastReportValid && W.lastReportText.size() < 2600) {
+                    // a further report without clearing in between: the buffer accumulates, the new report is what was appended
+                    const char* text = det.report((MemLeakPeriod)q);
+                    Str t = text;
+                    if (t.compare(0, W.lastReportText.size(), W.lastReportText) == 0 && t.size() < 3300) { Str suffix = t.substr(W.lastReportText.size()); parseReport(W, oi, suffix.c_str(), q, true); probe("consecutive_report_without_clear"); }
+                    W.lastReportText = t; W.lastReportValid = t.size() < 3300;
+                    h.str(text);
+                    break;
+                }
+                clearBuffer(W);                            // startChecking is the only way to clear the buffer; the period is restored at once, nothing is allocated in between
                 const char* text = det.report((MemLeakPeriod)q);
                 parseReport(W, oi, text, q, true);
+                W.lastReportText = text; W.lastReportValid = true;
                 h.str(text);
                 break;
             }
